@@ -1,15 +1,21 @@
 import RsMatterVerif.Model.Chunk
 import Driver.Util
-/-! Driver for C14: the chunking model predicts, from the value lengths of a read request and the
-encoding constants measured on the real encoder (case header), the exact chunk layout (which report
-goes into which message, message sizes, MoreChunks flags); the prediction is compared with what the
-real `InteractionModel` sent.  Independently, the specification is evaluated on the implementation's
-own chunks: status ok, every message well-formed and at most the buffer size, MoreChunks on all but
-the last, SuppressResponse only on the last, and the reassembled reports equal the requested values
-(each once, in order, lists complete, contents intact).
+/-! Driver for C14: the chunking model predicts, from the request (value lengths, data-version
+filters, event paths and filters, the events in the queue, the length of the transmit buffer,
+read or subscribe) and the encoding constants measured on the real encoder (case header), the exact
+chunk layout (which report goes into which message, message sizes, MoreChunks flags); the
+prediction is compared with what the real `InteractionModel` sent.  Independently, the
+specification is evaluated on the implementation's own chunks: the interaction ends, every message
+is well-formed and at most the buffer size, MoreChunks on all but the last, SuppressResponse only
+on the last, the subscription id on every message of a priming report and on none of a read, the
+reassembled attribute reports equal the selected values (each once, in order, lists complete,
+contents intact; an error status only for a value that fits no message), and the event reports are
+the statuses of the invalid paths followed by exactly the queued events that match the paths and
+pass the filters, each once, in queue order.
 
-case header: `case <id> rd <B> <KS> <KW> <KE> <KI>`
-op: `rd <item>…`, item = `s<attr>:<len>` | `l<k>:<len>,<len>…` | `l<k>:-`
+case header: `case <id> rd <B> <KS> <KW> <KE> <KI> <KX> <KV> <KT>`
+op: `rd|sp [b<cap>] <item>… [f<1|2><m|x>]… [q<W|1>] [z<n>] [e<c|i|d><1|2>:<len>]… [m<min>]…`
+out: `<status> | <queue> | <chunk>;…`
 -/
 namespace Driver.C14
 open Chunk
@@ -20,100 +26,206 @@ structure Hdr where
   kw : Nat := 0
   ke : Nat := 0
   ki : Nat := 0
+  kx : Nat := 0
+  kv : Nat := 0
+  kt : Nat := 0
 
 inductive ReqItem
-  | s (attr : Nat) (len : Nat)
-  | l (k : Nat) (lens : List Nat)
+  | s (ep : Nat) (attr : Nat) (len : Nat)
+  | l (ep : Nat) (k : Nat) (lens : List Nat)
+  | u
+
+structure Op where
+  subscribe : Bool := false
+  /-- `sr`: the rendered answer is the subscription report after the priming -/
+  report : Bool := false
+  /-- per item: changed after the priming (`n` prefix = unchanged) -/
+  changed : List Bool := []
+  cap : Option Nat := none
+  items : List ReqItem := []
+  f1 : Option Bool := none
+  f2 : Option Bool := none
+  query : Option Char := none
+  invalid : Nat := 0
+  /-- priority, event id, payload length of the pushed events (the n-th has number n) -/
+  events : List (Nat × Nat × Nat) := []
+  mins : List Nat := []
 
 def lb (len : Nat) : Nat := if len < 256 then 1 else 2
 
 def firstCh (s : String) : String := String.ofList (s.toList.take 1)
 def restStr (s : String) : String := String.ofList (s.toList.drop 1)
 
-def parseItem (w : String) : Option ReqItem :=
-  match w.splitOn ":" with
-  | [head, val] =>
-    let kind := firstCh head
-    match (restStr head).toNat? with
-    | none => none
-    | some a =>
-      if kind = "s" then (val.toNat?).map (fun len => ReqItem.s (a % 16) len)
-      else if kind = "l" then
-        if val = "-" then some (.l (a % 6) [])
-        else
-          let ls := (val.splitOn ",").map String.toNat?
-          if ls.all Option.isSome then some (.l (a % 6) (ls.filterMap id)) else none
-      else none
-  | _ => none
+def parseLens (val : String) : Option (List Nat) :=
+  if val = "-" then some []
+  else
+    let ls := (val.splitOn ",").map String.toNat?
+    if ls.all Option.isSome then some (ls.filterMap id) else none
 
-def cfgOf (h : Hdr) : Cfg :=
-  { cap := h.cap, reserve := Consts.longReadsReserve, structReserve := Consts.longReadsStructReserve,
-    hdr := 1, arrOpen := 2, close := 1, trailerMore := 7, trailerDone := 6 }
+/-- one token of an op; `none` = malformed -/
+def parseTok (o : Op) (w0 : String) : Option Op :=
+  let changed := !(w0.startsWith "n")
+  let w := if changed then w0 else restStr w0
+  let kind := firstCh w
+  let rest := restStr w
+  if kind = "b" then rest.toNat?.map fun n => { o with cap := some n }
+  else if kind = "f" then
+    let m := rest.endsWith "m"
+    if rest.startsWith "2" then some { o with f2 := some m } else some { o with f1 := some m }
+  else if kind = "q" then some { o with query := rest.toList.head? }
+  else if kind = "z" then rest.toNat?.map fun n => { o with invalid := min n 8 }
+  else if kind = "m" then rest.toNat?.map fun n => { o with mins := o.mins ++ [n] }
+  else if kind = "e" then
+    match rest.splitOn ":" with
+    | [head, len] =>
+      let prio := match head.toList.head? with
+        | some 'd' => 0
+        | some 'i' => 1
+        | _ => 2
+      let evid := if head.endsWith "2" then 2 else 1
+      len.toNat?.map fun n => { o with events := o.events ++ [(prio, evid, n)] }
+    | _ => none
+  else if kind = "u" then some { o with items := o.items ++ [.u], changed := o.changed ++ [changed] }
+  else if kind = "s" || kind = "S" || kind = "l" || kind = "L" then
+    let ep := if kind = "S" || kind = "L" then 1 else 0
+    match rest.splitOn ":" with
+    | [a, val] =>
+      match a.toNat? with
+      | none => none
+      | some a =>
+        if kind = "s" || kind = "S" then
+          val.toNat?.map fun len => { o with items := o.items ++ [.s ep (a % 16) len], changed := o.changed ++ [changed] }
+        else (parseLens val).map fun lens => { o with items := o.items ++ [.l ep (a % 6) lens], changed := o.changed ++ [changed] }
+    | _ => none
+  else none
+
+def parseOp (ws : List String) : Option Op :=
+  match ws with
+  | [] => none
+  | k :: rest => rest.foldl (fun acc w => acc.bind (parseTok · w)) (some { subscribe := k = "sp" || k = "sr", report := k = "sr" })
+
+def itemId : ReqItem → Nat
+  | .s ep a _ => 1000 * ep + a
+  | .l ep k _ => 1000 * ep + 100 + k
+  | .u => 99
 
 def toItem (h : Hdr) : ReqItem → Item
-  | .s a len => .scalar a (h.ks + lb len + len)
-  | .l k lens =>
+  | .s ep a len => .scalar (1000 * ep + a) (h.ks + lb len + len) h.kx
+  | .l ep k lens =>
     -- the end-of-list probe writes the report header: an element report minus value tag (2) and the two closing bytes
-    .list (100 + k) (h.kw + (lens.map fun l => 1 + lb l + l).sum) h.ke (lens.map fun l => h.ki + lb l + l) (h.ki - 4)
+    .list (1000 * ep + 100 + k) (h.kw + (lens.map fun l => 1 + lb l + l).sum) h.ke
+      (lens.map fun l => h.ki + lb l + l) (h.ki - 4) h.kx (h.kx + 2)
+  | .u => .scalar 99 h.kx h.kx
+
+def filterOf (o : Op) : ReqItem → Option Nat
+  | .s ep _ _ => (if ep = 0 then o.f1 else o.f2).map fun m => if m then 1 else 2
+  | .l ep _ _ => (if ep = 0 then o.f1 else o.f2).map fun m => if m then 1 else 2
+  | .u => none
+
+/-- a subscription report carries only the changed attributes and knows no data-version filters -/
+def toAttr (h : Hdr) (o : Op) (it : ReqItem × Bool) : AttrReq :=
+  { item := toItem h it.1, wanted := !o.report || it.2, dataver := 1,
+    filter := if o.report then none else filterOf o it.1 }
+
+def itemsOf (o : Op) : List (ReqItem × Bool) := o.items.zip (o.changed ++ List.replicate o.items.length true)
+
+/-- width of a `u32` written by `TLVWrite::u32` -/
+def u32w (n : Nat) : Nat := if n < 256 then 1 else if n < 65536 then 2 else 4
+
+def cfgOf (h : Hdr) (o : Op) (subId : Nat) : Cfg :=
+  { cap := min (o.cap.getD h.cap) h.cap, reserve := Consts.longReadsReserve, structReserve := Consts.longReadsStructReserve,
+    hdr := if o.subscribe then 1 + 2 + u32w subId else 1, arrOpen := 2, close := 1, trailerMore := 7,
+    trailerDone := if o.subscribe then 4 else 6, evOpen := 2 }
+
+def evSel (o : Op) (evid : Nat) : Bool := o.query = some 'W' || (o.query = some '1' && evid = 1)
+
+def nextMaxOf (o : Op) : Nat := if o.subscribe then o.events.length else 18446744073709551615
+
+/-- width of a `u64` written by `TLVWrite::u64` -/
+def u64w (n : Nat) : Nat := if n < 256 then 1 else if n < 65536 then 2 else if n < 4294967296 then 4 else 8
+
+/-- encoded size of the report of an event with payload length `len` pushed at time `ms` (the
+constant part was measured at a time that takes one byte) -/
+def evSize (h : Hdr) (ms len : Nat) : Nat := h.kv + (u64w ms - 1) + lb len + len
+
+def toEvReq (h : Hdr) (o : Op) (queue : List Nat) (ms : Nat) : EvReq :=
+  { buf := queue.map fun n =>
+      match o.events[n - 1]? with
+      | some (_, evid, len) => { num := n, size := evSize h ms len, sel := evSel o evid }
+      | none => { num := n, size := 0, sel := false },
+    mins := o.mins, maxSeen := 0, nextMax := nextMaxOf o, statuses := List.replicate o.invalid h.kt }
+
+def toReq (h : Hdr) (o : Op) (queue : List Nat) (ms : Nat) : Req :=
+  { attrs := if o.items.isEmpty then none else some ((itemsOf o).map (toAttr h o)),
+    events := if o.query.isSome || o.invalid > 0 then some (toEvReq h o queue ms) else none,
+    sendIfEmpty := !o.report }
 
 def rPiece : Piece → String
-  | .scalar id sz => s!"S{id}:{sz}"
-  | .wholeList id sz [] => s!"E{id - 100}:{sz}"   -- an empty list read whole looks like the start of a streamed one
-  | .wholeList id sz _ => s!"W{id - 100}:{sz}"
-  | .listStart id sz => s!"E{id - 100}:{sz}"
-  | .listElem id _ sz => s!"I{id - 100}:{sz}"
+  | .scalar id sz => if id = 99 then s!"X{id}:{sz}" else s!"S{id}:{sz}"
+  | .wholeList id sz [] => s!"E{id}:{sz}"   -- an empty list read whole looks like the start of a streamed one
+  | .wholeList id sz _ => s!"W{id}:{sz}"
+  | .listStart id sz => s!"E{id}:{sz}"
+  | .listElem id _ sz => s!"I{id}:{sz}"
+  | .status id sz => s!"X{id}:{sz}"
+
+def rEv : EvPiece → String
+  | .data n sz => s!"D{n}:{sz}"
+  | .status k sz => s!"T{9 + k}:{sz}"
+
+def joinOr (xs : List String) : String := if xs.isEmpty then "-" else ",".intercalate xs
 
 def rChunk (c : ChunkOut) : String :=
-  s!"{c.size}/{if c.more then 1 else 0}:" ++ (if c.pieces.isEmpty then "-" else ",".intercalate (c.pieces.map rPiece))
+  s!"{c.size}/{if c.more then 1 else 0}:{joinOr (c.pieces.map rPiece)}|{joinOr (c.events.map rEv)}"
 
-/-- a chunk as reported by the harness: `<size>/<more><suppress><wf>/<pieces>` -/
+/-- a chunk as reported by the harness: `<size>/<more><suppress><wf>/<sub>/<pieces>/<events>` -/
 structure IChunk where
   size : Nat
   more : Bool
   suppress : Bool
   wf : Bool
+  sub : Option Nat
   pieces : List String
+  events : List String
 
 def parseIChunk (t : String) : Option IChunk :=
   match t.splitOn "/" with
-  | [sz, fl, ps] =>
+  | [sz, fl, sub, ps, es] =>
     match sz.toNat?, fl.toList with
     | some n, [m, s, w] =>
-      some { size := n, more := m = '1', suppress := s = '1', wf := w = '1',
-             pieces := if ps = "-" then [] else ps.splitOn "," }
+      some { size := n, more := m = '1', suppress := s = '1', wf := w = '1', sub := sub.toNat?,
+             pieces := if ps = "-" then [] else ps.splitOn ",",
+             events := if es = "-" then [] else es.splitOn "," }
     | _, _ => none
   | _ => none
 
-/-- kind + attribute + encoded size of a piece (the first two `:` fields) -/
+/-- kind + id + encoded size of a report (the first two `:` fields) -/
 def pieceKey (p : String) : String :=
   match p.splitOn ":" with
   | a :: b :: _ => s!"{a}:{b}"
   | _ => p
 
 def rIChunk (c : IChunk) : String :=
-  s!"{c.size}/{if c.more then 1 else 0}:" ++ (if c.pieces.isEmpty then "-" else ",".intercalate (c.pieces.map pieceKey))
+  s!"{c.size}/{if c.more then 1 else 0}:{joinOr (c.pieces.map pieceKey)}|{joinOr (c.events.map pieceKey)}"
 
 /-! ## specification on the implementation's chunks -/
 
-/-- reassembled answer: per item its attribute tag and value lengths -/
+/-- reassembled answer: per item its id and value lengths; `f` = an error status stands for the
+item (`some lens`: after the streamed elements `lens`) -/
 inductive Got
-  | s (attr : Nat) (len : Nat)
-  | l (k : Nat) (lens : List Nat)
+  | s (id : Nat) (len : Nat)
+  | l (id : Nat) (lens : List Nat)
+  | f (id : Nat) (part : Option (List Nat))
 deriving DecidableEq
 
-def gotOfReq : ReqItem → Got
-  | .s a len => .s a len
-  | .l k lens => .l k lens
-
-/-- fold the stream of pieces into items; `none` = malformed stream (element without a list start,
-bad content flag, unknown piece) -/
+/-- fold the stream of attribute reports into items; `none` = malformed stream (element without a
+list start, damaged value, unknown report) -/
 def reassemble : List String → List Got → Option (List Got)
   | [], acc => some acc.reverse
   | p :: ps, acc =>
     let f := p.splitOn ":"
     let kind := firstCh (f.getD 0 "")
-    let attr := (restStr (f.getD 0 "")).toNat?
-    match kind, attr with
+    let rid := (restStr (f.getD 0 "")).toNat?
+    match kind, rid with
     | "S", some a =>
       match (f.getD 2 "").toNat?, f.getD 3 "" with
       | some len, "1" => reassemble ps (.s a len :: acc)
@@ -127,33 +239,120 @@ def reassemble : List String → List Got → Option (List Got)
       | .l k' lens :: rest, some len, "1" =>
         if k' = k then reassemble ps (.l k (lens ++ [len]) :: rest) else none
       | _, _, _ => none
+    | "X", some k =>
+      match acc with
+      | .l k' lens :: rest => if k' = k && k ≥ 100 then reassemble ps (.f k (some lens) :: rest) else reassemble ps (.f k none :: acc)
+      | _ => reassemble ps (.f k none :: acc)
     | _, _ => none
 
-def fitsReq (h : Hdr) (items : List ReqItem) : Bool :=
-  (items.map (toItem h)).all fun it => it.fits (cfgOf h)
+/-- does the reassembled item answer the requested one?  An error status is accepted only for an
+item one of whose reports fits no message -/
+def answers (c : Cfg) (h : Hdr) (it : ReqItem) (g : Got) : Bool :=
+  let fits := (toItem h it).fits c
+  match it, g with
+  | .u, .f 99 none => true
+  | .s ep a len, .s id len' => id = 1000 * ep + a && len = len'
+  | .s ep a _, .f id none => !fits && id = 1000 * ep + a
+  | .l ep k lens, .l id lens' => id = 1000 * ep + 100 + k && lens = lens'
+  | .l ep k _, .f id none => !fits && id = 1000 * ep + 100 + k
+  | .l ep k lens, .f id (some pre) => !fits && id = 1000 * ep + 100 + k && pre.isPrefixOf lens
+  | _, _ => false
 
-def oracle (h : Hdr) (items : List ReqItem) (status : String) (cs : List IChunk) : Option String :=
-  if !fitsReq h items then none   -- a value that fits no message: nothing is demanded (stated hypothesis `Fits`)
-  else if status ≠ "ok" then some s!"the read was not answered completely: {status}"
+def answersAll (c : Cfg) (h : Hdr) : List ReqItem → List Got → Bool
+  | [], [] => true
+  | it :: its, g :: gs => answers c h it g && answersAll c h its gs
+  | _, _ => false
+
+/-- the attributes a correct answer carries: not held back by a matching data-version filter -/
+def expectedItems (o : Op) : List ReqItem :=
+  if o.report then ((itemsOf o).filter (·.2)).map (·.1)
+  else o.items.filter fun it => filterOf o it != some 1
+
+/-- the event numbers a correct answer carries, in queue order -/
+def expectedEvents (o : Op) (queue : List Nat) : List Nat :=
+  queue.filter fun n =>
+    match o.events[n - 1]? with
+    | some (_, evid, _) => evSel o evid && o.mins.all (fun m => decide (m ≤ n)) && decide (n ≤ nextMaxOf o)
+    | none => false
+
+/-- the event reports of the answer: number of leading status reports, then the numbers of the data
+reports; `none` = a damaged or unknown report, or a status after a data report -/
+def readEvents : List String → Nat → List Nat → Option (Nat × List Nat)
+  | [], st, acc => some (st, acc.reverse)
+  | p :: ps, st, acc =>
+    let f := p.splitOn ":"
+    let kind := firstCh (f.getD 0 "")
+    let n := (restStr (f.getD 0 "")).toNat?
+    match kind, n with
+    | "T", some _ => if acc.isEmpty then readEvents ps (st + 1) acc else none
+    | "D", some n => if f.getD 3 "" = "1" then readEvents ps st (n :: acc) else none
+    | _, _ => none
+
+/-- what must fit an empty message for the device to be able to answer at all: the error statuses
+and the event reports (WF of the configuration included) -/
+def answerable (c : Cfg) (h : Hdr) (o : Op) (queue : List Nat) (ms : Nat) : Bool :=
+  decide (c.reserve + c.structReserve ≤ c.cap) && decide (c.hdr + 2 + h.kx + 2 ≤ c.limit) &&
+  decide (c.hdr + 2 + h.kt ≤ c.limit) &&
+  (expectedEvents o queue).all fun n =>
+    match o.events[n - 1]? with
+    | some (_, _, len) => decide (c.hdr + 2 + evSize h ms len ≤ c.limit)
+    | none => true
+
+def subIdOf (status : String) (cs : List IChunk) : Nat :=
+  match (status.splitOn ":").getD 1 "" |>.toNat? with
+  | some n => n
+  | none => ((cs.head?.bind (·.sub)).getD 1)
+
+def oracle (h : Hdr) (o : Op) (status : String) (queue : List Nat) (ms : Nat) (cs : List IChunk) : Option String :=
+  let c := cfgOf h o (subIdOf status cs)
+  if status = "toomany" then some s!"the interaction does not end: {cs.length} messages and still MoreChunks"
+  else if !answerable c h o queue ms then none   -- an error status / an event that fits no message: the device may give up
+  else if o.report && decide (c.limit < c.hdr + 2 + h.ke) then none   -- not even the priming of an empty list fits
+  else if status.startsWith "status:" then none   -- the request was refused (not a report)
+  else if status.startsWith "none:" then
+    -- no report at all: right only when nothing is to be reported
+    if o.report && (expectedItems o).isEmpty && (expectedEvents o queue).isEmpty then none
+    else some "no report was sent although attributes changed / events were emitted"
+  else if !(status = "ok" || status.startsWith "ok:") then some s!"the request was not answered completely: {status}"
   else if cs.isEmpty then some "no message"
   else
-    match cs.find? (fun c => !c.wf) with
-    | some c => some s!"a message of {c.size} bytes is not well-formed on its own"
+    match cs.find? (fun ch => !ch.wf) with
+    | some ch => some s!"a message of {ch.size} bytes is not well-formed on its own"
     | none =>
-    match cs.find? (fun c => decide (c.size > h.cap)) with
-    | some c => some s!"a message of {c.size} bytes exceeds the maximum of {h.cap}"
+    match cs.find? (fun ch => decide (ch.size > c.cap)) with
+    | some ch => some s!"a message of {ch.size} bytes exceeds the maximum of {c.cap}"
     | none =>
       let front := cs.dropLast
       let last := cs.getLast?
-      if front.any (fun c => !c.more) then some "a message before the last one ends the interaction (MoreChunks clear)"
-      else if front.any (fun c => c.suppress) then some "SuppressResponse on a message that is not the last"
+      if front.any (fun ch => !ch.more) then some "a message before the last one ends the interaction (MoreChunks clear)"
+      else if front.any (fun ch => ch.suppress) then some "SuppressResponse on a message that is not the last"
       else if (last.map (·.more)).getD true then some "the last message announces more chunks"
+      else if o.subscribe && cs.any (fun ch => ch.sub != some (subIdOf status cs)) then
+        some "a message of the priming report does not carry the subscription id of the SubscribeResponse"
+      else if !o.subscribe && cs.any (fun ch => ch.sub.isSome) then some "a message of a read carries a subscription id"
       else
         match reassemble (cs.flatMap (·.pieces)) [] with
-        | none => some "the reports do not reassemble (element without list start, damaged value or unknown report)"
+        | none => some "the attribute reports do not reassemble (element without list start, damaged value or unknown report)"
         | some got =>
-          if got = items.map gotOfReq then none
-          else some s!"the reassembled answer differs from the requested values ({got.length} items for {items.length} requested)"
+          if !answersAll c h (expectedItems o) got then
+            some s!"the reassembled attributes differ from the selected values ({got.length} items for {(expectedItems o).length} selected)"
+          else
+            match readEvents (cs.flatMap (·.events)) 0 [] with
+            | none => some "the event reports are damaged or out of order (status after data)"
+            | some (st, nums) =>
+              if st ≠ o.invalid then some s!"{st} status reports for {o.invalid} invalid event paths"
+              else if nums ≠ expectedEvents o queue then
+                some s!"the reported events {nums} differ from the selected events {expectedEvents o queue}"
+              else none
+
+/-- the subscribe request of an `sr` op as the device sees it while priming: empty values, an empty
+event queue -/
+def zeroItem : ReqItem → ReqItem
+  | .s ep a _ => .s ep a 0
+  | .l ep k _ => .l ep k []
+  | .u => .u
+
+def primingOf (o : Op) : Op := { o with report := false, events := [], items := o.items.map zeroItem }
 
 structure St where
   h : Hdr := {}
@@ -161,31 +360,45 @@ structure St where
 def step (st : St) (line : String) : St × String :=
   let (op, out) := splitArrow line
   match words op with
-  | "case" :: _ :: _ :: b :: ks :: kw :: ke :: ki :: _ =>
-    match b.toNat?, ks.toNat?, kw.toNat?, ke.toNat?, ki.toNat? with
-    | some b, some ks, some kw, some ke, some ki => ({ h := { cap := b, ks := ks, kw := kw, ke := ke, ki := ki } }, "case")
-    | _, _, _, _, _ => (st, "BAD case header (calibration failed?)")
-  | "rd" :: ws =>
-    let parsed := ws.map parseItem
-    if !parsed.all Option.isSome then (st, "BAD item") else
-    let items := parsed.filterMap id
-    let secs := (out.splitOn " | ").map (fun s => s.trimAscii.toString)
-    let status := secs.getD 0 ""
-    let ctext := secs.getD 1 "-"
-    let ichunks := if ctext = "-" then [] else (ctext.splitOn ";").map parseIChunk
-    if !ichunks.all Option.isSome then (st, "BAD chunk") else
-    let cs := ichunks.filterMap id
-    match oracle st.h items status cs with
-    | some why => (st, s!"ORA {why}")
-    | none =>
-      match chunks (cfgOf st.h) (items.map (toItem st.h)) with
-      | .ok ms =>
-        let mtext := ";".intercalate (ms.map rChunk)
-        let itext := ";".intercalate (cs.map rIChunk)
-        if status = "ok" && mtext = itext then (st, "ok") else (st, s!"DIS ok | {mtext}")
-      | .error .loops => if status = "toomany" then (st, "ok") else (st, "DIS loops")
-      | .error .noSpace => if status = "hang" then (st, "ok") else (st, "DIS nospace")
-  | _ => (st, "BAD op")
+  | "case" :: _ :: _ :: b :: ks :: kw :: ke :: ki :: kx :: kv :: kt :: _ =>
+    match b.toNat?, ks.toNat?, kw.toNat?, ke.toNat?, ki.toNat?, kx.toNat?, kv.toNat?, kt.toNat? with
+    | some b, some ks, some kw, some ke, some ki, some kx, some kv, some kt =>
+      ({ h := { cap := b, ks := ks, kw := kw, ke := ke, ki := ki, kx := kx, kv := kv, kt := kt } }, "case")
+    | _, _, _, _, _, _, _, _ => (st, "BAD case header (calibration failed?)")
+  | "case" :: _ => (st, "BAD case header")
+  | ws =>
+    match parseOp ws with
+    | none => (st, "BAD op")
+    | some o =>
+      if ws.head? ≠ some "rd" && ws.head? ≠ some "sp" && ws.head? ≠ some "sr" then (st, "BAD op") else
+      let secs := (out.splitOn " | ").map (fun s => s.trimAscii.toString)
+      let status := secs.getD 0 ""
+      let qtext := secs.getD 1 "-"
+      let ctext := secs.getD 2 "-"
+      let qparts := qtext.splitOn "@"
+      let ms := ((qparts.getD 1 "0").toNat?).getD 0
+      let queue := if qtext = "-" then [] else ((qparts.getD 0 "").splitOn ",").filterMap String.toNat?
+      let ichunks := if ctext = "-" then [] else (ctext.splitOn ";").map parseIChunk
+      if !ichunks.all Option.isSome then (st, "BAD chunk") else
+      let cs := ichunks.filterMap id
+      match oracle st.h o status queue ms cs with
+      | some why => (st, s!"ORA {why}")
+      | none =>
+        if status.startsWith "status:" then (st, "ok") else
+        let c := cfgOf st.h o (subIdOf status cs)
+        -- a report presupposes the priming: if the device cannot prime, the subscription is not established
+        let primed := !o.report || (match respond c (toReq st.h (primingOf o) [] 0) with | .ok _ => true | .error _ => false)
+        if !primed then (if status = "hang" then (st, "ok") else (st, "DIS priming fails")) else
+        match respond c (toReq st.h o queue ms) with
+        | .ok [] => if status.startsWith "none:" then (st, "ok") else (st, "DIS ok | (no message)")
+        | .ok ms =>
+          let mtext := ";".intercalate (ms.map rChunk)
+          let itext := ";".intercalate (cs.map rIChunk)
+          if (status = "ok" || status.startsWith "ok:") && mtext = itext then (st, "ok") else (st, s!"DIS ok | {mtext}")
+        | .error .loops => (st, "DIS loops")
+        -- the device gives up: a request gets no (complete) answer, a report is not sent
+        | .error .noSpace => if status = "hang" || (o.report && status.startsWith "none:") then (st, "ok") else (st, "DIS nospace")
+        | .error .tooBig => if status = "hang" || (o.report && status.startsWith "none:") then (st, "ok") else (st, "DIS toobig")
 
 def run : IO UInt32 := Driver.runLoop ({} : St) step
 
